@@ -459,11 +459,11 @@ Definition tri_volume3 (p0_0 p0_1 p0_2 p1_0 p1_1 p1_2 p2_0 p2_1 p2_2 p3_0 p3_1 p
 
 (* learnerND.volume; 1 path(s) *)
 Definition nd_volume1 (p0_0 p1_0 : R) : R :=
-  ((Rabs (- (p0_0 - p1_0))) * 1).
+  ((Rabs (p0_0 - p1_0)) / 1).
 
 (* learnerND.volume; 1 path(s) *)
 Definition nd_volume2 (p0_0 p0_1 p1_0 p1_1 p2_0 p2_1 : R) : R :=
-  ((Rabs (- (((p0_0 - p2_0) * (p1_1 - p2_1)) - ((p1_0 - p2_0) * (p0_1 - p2_1))))) * (1 / 2)).
+  ((Rabs (((p0_0 - p2_0) * (p1_1 - p2_1)) - ((p1_0 - p2_0) * (p0_1 - p2_1)))) / 2).
 
 (* learnerND.volume; 1 path(s) *)
 Definition nd_volume3 (p0_0 p0_1 p0_2 p1_0 p1_1 p1_2 p2_0 p2_1 p2_2 p3_0 p3_1 p3_2 : R) : R :=
@@ -473,11 +473,11 @@ Definition nd_volume3 (p0_0 p0_1 p0_2 p1_0 p1_1 p1_2 p2_0 p2_1 p2_2 p3_0 p3_1 p3
   let t4 := (p2_1 - p3_1) in
   let t5 := (p1_0 - p3_0) in
   let t6 := (p2_0 - p3_0) in
-  ((Rabs (- ((((p0_0 - p3_0) * ((t1 * t2) - (t3 * t4))) - ((p0_1 - p3_1) * ((t5 * t2) - (t3 * t6)))) + ((p0_2 - p3_2) * ((t5 * t4) - (t1 * t6)))))) * (6004799503160661 / 36028797018963968)).
+  ((Rabs ((((p0_0 - p3_0) * ((t1 * t2) - (t3 * t4))) - ((p0_1 - p3_1) * ((t5 * t2) - (t3 * t6)))) + ((p0_2 - p3_2) * ((t5 * t4) - (t1 * t6))))) / 6).
 
 (* learnerND.uniform_loss; 1 path(s) *)
 Definition nd_uniform_loss2 (p0_0 p0_1 p1_0 p1_1 p2_0 p2_1 y0 y1 y2 scale : R) : R :=
-  ((Rabs (- (((p0_0 - p2_0) * (p1_1 - p2_1)) - ((p1_0 - p2_0) * (p0_1 - p2_1))))) * (1 / 2)).
+  ((Rabs (((p0_0 - p2_0) * (p1_1 - p2_1)) - ((p1_0 - p2_0) * (p0_1 - p2_1)))) / 2).
 
 (* learnerND.default_loss -- 2-d domain, scalar values; 3 path(s) *)
 Definition nd_default_loss2 (p0_0 p0_1 p1_0 p1_1 p2_0 p2_1 y0 y1 y2 scale : R) : res :=
@@ -1053,15 +1053,15 @@ Definition l1_abs_min_log_loss (x0 x1 y0 y1 : R) : R :=
 
 (* learner1D.triangle_loss -- neighbours present: (1, 1, 1, 1); 1 path(s) *)
 Definition l1_triangle_loss_full (x0 x1 x2 x3 y0 y1 y2 y3 : R) : R :=
-  ((((Rabs (- (((x0 - x2) * (y1 - y2)) - ((x1 - x2) * (y0 - y2))))) * (1 / 2)) + ((Rabs (- (((x1 - x3) * (y2 - y3)) - ((x2 - x3) * (y1 - y3))))) * (1 / 2))) / 2).
+  ((((Rabs (((x0 - x2) * (y1 - y2)) - ((x1 - x2) * (y0 - y2)))) / 2) + ((Rabs (((x1 - x3) * (y2 - y3)) - ((x2 - x3) * (y1 - y3)))) / 2)) / 2).
 
 (* learner1D.triangle_loss -- neighbours present: (0, 1, 1, 1); 1 path(s) *)
 Definition l1_triangle_loss_left (x1 x2 x3 y1 y2 y3 : R) : R :=
-  (((Rabs (- (((x1 - x3) * (y2 - y3)) - ((x2 - x3) * (y1 - y3))))) * (1 / 2)) / 1).
+  (((Rabs (((x1 - x3) * (y2 - y3)) - ((x2 - x3) * (y1 - y3)))) / 2) / 1).
 
 (* learner1D.triangle_loss -- neighbours present: (1, 1, 1, 0); 1 path(s) *)
 Definition l1_triangle_loss_right (x0 x1 x2 y0 y1 y2 : R) : R :=
-  (((Rabs (- (((x0 - x2) * (y1 - y2)) - ((x1 - x2) * (y0 - y2))))) * (1 / 2)) / 1).
+  (((Rabs (((x0 - x2) * (y1 - y2)) - ((x1 - x2) * (y0 - y2)))) / 2) / 1).
 
 (* learner1D.triangle_loss -- neighbours present: (0, 1, 1, 0); 1 path(s) *)
 Definition l1_triangle_loss_none (x1 x2 y1 y2 : R) : R :=
@@ -1116,7 +1116,7 @@ Definition l1_resolution_loss (min_length max_length x0 x1 y0 y1 : R) : res :=
 Definition l1_curvature_loss (area_factor euclid_factor horizontal_factor x0 x1 x2 x3 y0 y1 y2 y3 : R) : R :=
   let t1 := (x2 - x1) in
   let t2 := (y2 - y1) in
-  (((area_factor * (sqrt ((((Rabs (- (((x0 - x2) * (y1 - y2)) - ((x1 - x2) * (y0 - y2))))) * (1 / 2)) + ((Rabs (- (((x1 - x3) * (y2 - y3)) - ((x2 - x3) * (y1 - y3))))) * (1 / 2))) / 2))) + (euclid_factor * (sqrt ((t1 * t1) + (t2 * t2))))) + (horizontal_factor * t1)).
+  (((area_factor * (sqrt ((((Rabs (((x0 - x2) * (y1 - y2)) - ((x1 - x2) * (y0 - y2)))) / 2) + ((Rabs (((x1 - x3) * (y2 - y3)) - ((x2 - x3) * (y1 - y3)))) / 2)) / 2))) + (euclid_factor * (sqrt ((t1 * t1) + (t2 * t2))))) + (horizontal_factor * t1)).
 
 (* learner1D.linspace -- n = 1 (empty list printed as 0); 1 path(s) *)
 Definition l1_linspace1 (a b : R) : R :=
